@@ -380,6 +380,58 @@ func evalPrefix(m layer4.ConnMatcher, wc *wireCase, stream []byte, n int, netw s
 	return
 }
 
+// evalIncremental delivers the stream to ONE connection in the given segments (cuts = the stream lengths after each
+// segment) and asks the matcher after every segment, as the routing loop does while a route is undecided; whatever the
+// matcher or the connection remembers between evaluations is in play. Returns whether every evaluation before the
+// last segment asked for more, and the verdict after the last one.
+func evalIncremental(m layer4.ConnMatcher, wc *wireCase, stream []byte, cuts []int) (allMore bool, final string) {
+	rec := vh.NewRecorder(stream)
+	sc := &vh.ScriptConn{Rec: rec, Slen: len(stream), EndKind: "eof", Start: time.Now(), Unit: time.Hour}
+	prev := 0
+	for _, c := range cuts {
+		sc.Pulls = append(sc.Pulls, c-prev)
+		prev = c
+	}
+	if wc.remote != nil {
+		sc.Remote = wc.remote
+	}
+	cx := layer4.WrapConnection(sc, make([]byte, 0, 2048), zap.NewNop())
+	if wc.when != nil {
+		if repl, ok := cx.Context.Value(layer4.ReplacerCtxKey).(*caddy.Replacer); ok {
+			repl.Set("l4.conn.wrap_time", *wc.when)
+		}
+	}
+	allMore = true
+	for k := range cuts {
+		if err := layer4.VerifPrefetch(cx); err != nil {
+			return allMore, "E"
+		}
+		func() {
+			defer func() {
+				if r := recover(); r != nil {
+					final = "P"
+				}
+			}()
+			ok, err := layer4.MatcherSet{m}.Match(cx)
+			switch {
+			case errors.Is(err, layer4.ErrConsumedAllPrefetchedBytes):
+				final = "M"
+			case err != nil:
+				final = "E"
+			case ok:
+				final = "Y"
+			default:
+				final = "N"
+			}
+		}()
+		if k < len(cuts)-1 && final != "M" {
+			allMore = false
+			return
+		}
+	}
+	return
+}
+
 func prefixLens(total, msglen int) []int {
 	set := map[int]bool{0: true, total: true, msglen: true}
 	for n := 0; n <= total && n <= 96; n++ {
@@ -528,8 +580,33 @@ func init() {
 				}
 				verdicts = append(verdicts, vd{n, ver})
 			}
+			// the stream delivered to one connection in two or three segments, the matcher asked after each
+			type incr struct {
+				Cuts    []int  `json:"cuts"`
+				AllMore bool   `json:"allMore"`
+				Final   string `json:"final"`
+			}
+			incs := []incr{}
+			if v.Net == "tcp" && v.Proto != "quic" && len(stream) >= 3 && len(stream) <= 8000 && maxAlloc <= 16<<20 {
+				total := len(stream)
+				sh := v.Gid % 5
+				for _, cuts := range [][]int{{total/3 + sh%2, 2*total/3 + sh, total}, {total/2 - sh, total}, {1 + sh, total - 1 - sh%2, total}} {
+					okc := true
+					for j, c := range cuts {
+						if c <= 0 || c > total || (j > 0 && c <= cuts[j-1]) || (j > 0 && c-cuts[j-1] > 2048) || (j == 0 && c > 2048) {
+							okc = false
+						}
+					}
+					if !okc {
+						continue
+					}
+					am, fin := evalIncremental(m, wc, stream, cuts)
+					evals += len(cuts)
+					incs = append(incs, incr{cuts, am, fin})
+				}
+			}
 			o := map[string]any{"id": fmt.Sprintf("wire:%d", v.Gid), "v": v,
-				"o": map[string]any{"verdicts": verdicts, "msglen": msglen, "repeatOK": repeatOK, "pureOK": pureOK, "maxAlloc": maxAlloc, "allocBound": 524288}}
+				"o": map[string]any{"verdicts": verdicts, "msglen": msglen, "repeatOK": repeatOK, "pureOK": pureOK, "maxAlloc": maxAlloc, "allocBound": 524288, "inc": incs}}
 			enc.Encode(o)
 			vecs++
 			byProto[v.Proto]++
